@@ -9,9 +9,9 @@ SFX=${ISO_SUFFIX:-}; MR=/root/work/mutrepo$SFX; MV=/root/work/mutverif$SFX
 [ -d $MR ] || git -C /repo worktree add --detach $MR HEAD >/dev/null 2>&1
 cd $MR && git checkout -q -- . && git checkout -q --detach "$(git -C /repo rev-parse HEAD)" || exit 2
 mkdir -p $MV
-rsync -a --delete --exclude .git --exclude harness/target --exclude harness/Cargo.toml --exclude evidence --exclude replays /verif/ $MV/
+rsync -a --delete --exclude .git --exclude harness/target --exclude harness/Cargo.toml --exclude evidence --exclude replays ${VERIF_SRC:-/verif}/ $MV/
 mkdir -p $MV/evidence $MV/replays
-sed "s#/repo/crates#$MR/crates#" /verif/harness/Cargo.toml > $MV/harness/Cargo.toml.new
+sed "s#/repo/crates#$MR/crates#" ${VERIF_SRC:-/verif}/harness/Cargo.toml > $MV/harness/Cargo.toml.new
 cmp -s $MV/harness/Cargo.toml.new $MV/harness/Cargo.toml 2>/dev/null || cp $MV/harness/Cargo.toml.new $MV/harness/Cargo.toml
 if ! git apply --check "$PATCH" 2>/dev/null; then echo "PATCH-DOES-NOT-APPLY"; exit 3; fi
 git apply "$PATCH"
